@@ -109,6 +109,6 @@ Lemma eq_checks_components fs :
   = eq_components fs.
 Proof.
   unfold eq_components, eq_checks. rewrite map_map, !flat_map_concat_map, map_map. f_equal.
-  apply map_ext. intros f. unfold check_component, spec_cmp_field. cbn [fst snd cf_fld cf_expr].
-  destruct (selected CEq (ha_cmp (fe_hattrs f))); reflexivity.
+  apply map_ext. intros f. unfold check_component, spec_cmp_field. cbn [sel_for]. cbn [sel_for fst snd cf_fld cf_expr].
+  cbn [sel_for]. destruct (eq_selected (ha_cmp (fe_hattrs f))); reflexivity.
 Qed.
